@@ -166,6 +166,28 @@ def normalise(tree):
     for st in tree.body:
         if isinstance(st, ast.Delete) and dead_names and all(isinstance(t, ast.Name) and t.id in dead_names for t in st.targets):
             continue
+        # a single module-level registration `register(REG, KEY)(FACTORY(args...))`: the decorated definition it stands for
+        if isinstance(st, ast.Expr) and isinstance(st.value, ast.Call) and isinstance(st.value.func, ast.Call) and \
+                isinstance(st.value.func.func, ast.Name) and st.value.func.func.id == "register" and "register" in funcs and \
+                len(st.value.args) == 1 and not st.value.keywords and isinstance(st.value.args[0], ast.Call) and \
+                isinstance(st.value.args[0].func, ast.Name) and st.value.args[0].func.id in funcs and not st.value.args[0].keywords:
+            fac_call = st.value.args[0]
+            fdef = funcs[fac_call.func.id]
+            inner = _factory_inner(fdef)
+            if inner is not None and len(fac_call.args) == len(fdef.args.args) and \
+                    not any(isinstance(a, ast.Starred) for a in fac_call.args):
+                penv = {p.arg: a for p, a in zip(fdef.args.args, fac_call.args)}
+                clone = _Subst(penv).visit(copy.deepcopy(inner))
+                n_single = sum(1 for x in new_body if isinstance(x, ast.FunctionDef) and x.name.startswith(inner.name + "__s"))
+                clone.name = "%s__s%d" % (inner.name, n_single + 1)
+                clone.decorator_list = [copy.deepcopy(st.value.func)]
+                ast.copy_location(clone, st)
+                for x in ast.walk(clone):
+                    if not hasattr(x, "lineno"):
+                        ast.copy_location(x, st)
+                new_body.append(clone)
+                done += 1
+                continue
         if not (isinstance(st, ast.For) and not st.orelse):
             new_body.append(st)
             continue
